@@ -139,13 +139,24 @@ impl TaskManager {
 					// Use leveled compaction strategy
 					let strategy: Arc<dyn CompactionStrategy> =
 						Arc::new(Strategy::from_options(Arc::clone(&opts)));
-					if let Err(e) = core.compact(strategy) {
-						log::error!("Level compaction task error: {e:?}");
-						core.error_handler().set_error(e, BackgroundErrorReason::Compaction);
-						write_stall.signal_shutdown();
-					} else {
+					// Run rounds until no level needs to push data down any more.
+					// One round per wake-up is not enough: writers stalled on the L0
+					// file count produce no further flush, so nothing would wake this
+					// task again while L0 is still over the limit.
+					loop {
+						if let Err(e) = core.compact(Arc::clone(&strategy)) {
+							log::error!("Level compaction task error: {e:?}");
+							core.error_handler().set_error(e, BackgroundErrorReason::Compaction);
+							write_stall.signal_shutdown();
+							break;
+						}
 						log::debug!("Level compaction completed successfully");
 						write_stall.signal_work_done();
+						if stop_flag.load(Ordering::SeqCst)
+							|| !core.has_pending_compaction(strategy.as_ref())
+						{
+							break;
+						}
 					}
 					#[cfg(feature = "verif")]
 					crate::verif::point("task.level.before_idle");
